@@ -36,13 +36,18 @@ def _classify(an, t, places):
         p = _place_of(an, t[2][0], places)
         if p is not None:
             return ('copy', p)
+    if t[0] == 'call' and isinstance(t[1], str) and t[1].endswith('Option::<T>::or') and len(t[2]) == 2:
+        a, b2 = _classify(an, t[2][0], places), _classify(an, t[2][1], places)
+        return ('or', a, b2)
     return '?'
 
 
-def run(ctx, b, places, entry=None, want_exits=False):
+def run(ctx, b, places, entry=None, want_exits=False, start=0, stop=None):
     """{block: set(states at block entry)}; a state is a tuple over `places` of 'S'/'N'.
     places: local indices, or field names of `self` (first parameter).  entry: set of states at function entry
-    (default: every combination).  With want_exits the states at the normal returns are returned as well."""
+    (default: every combination).  With want_exits the states at the normal returns are returned as well.
+    start/stop: execute only from block `start` (with the entry states) up to, not including, block `stop`
+    (the states arriving at `stop` are recorded in the result): the transfer function of one match arm."""
     an = ctx.an(b)
     cfg = an.cfg
     events = {}
@@ -70,8 +75,18 @@ def run(ctx, b, places, entry=None, want_exits=False):
                 for s in sts:
                     if val in ('S', 'N'):
                         s2 = list(s); s2[li] = val; nxt.append(s2)
-                    elif isinstance(val, tuple):
+                    elif isinstance(val, tuple) and val[0] == 'copy':
                         s2 = list(s); s2[li] = s[val[1]]; nxt.append(s2)
+                    elif isinstance(val, tuple) and val[0] == 'or':
+                        def ev(v):
+                            if v in ('S', 'N'):
+                                return [v]
+                            if isinstance(v, tuple) and v[0] == 'copy':
+                                return [s[v[1]]]
+                            return ['S', 'N']
+                        for x in ev(val[1]):
+                            for y in ev(val[2]):
+                                s2 = list(s); s2[li] = 'S' if 'S' in (x, y) else 'N'; nxt.append(s2)
                     else:
                         for v in ('S', 'N'):
                             s2 = list(s); s2[li] = v; nxt.append(s2)
@@ -116,8 +131,8 @@ def run(ctx, b, places, entry=None, want_exits=False):
 
     # initial state: unknown for every place (the initialising assignments refine it) unless given
     init = sorted(entry) if entry is not None else [tuple(x) for x in _product(len(places))]
-    at = {0: set(init)}
-    work = [(0, s) for s in init]
+    at = {start: set(init)}
+    work = [(start, s) for s in init]
     exits = set()
     while work:
         bb, st = work.pop()
@@ -125,6 +140,9 @@ def run(ctx, b, places, entry=None, want_exits=False):
             if b.blocks[bb]['t']['k'] == 'return':
                 exits.add(st2)
             for y, st3 in successors(bb, st2):
+                if stop is not None and y == stop:
+                    at.setdefault(y, set()).add(st3)
+                    continue
                 if st3 not in at.setdefault(y, set()):
                     at[y].add(st3)
                     work.append((y, st3))
